@@ -89,6 +89,29 @@ def run(ctx):
                 n_dis += 1
                 if n_dis <= 3:
                     filt.report_disagreement(ctx, "negated triple after earlier commands: run_pipeline differs from the specification", db, cmds, drv)
+        # directed form of the same: an imported program P is deselected ALONE (impart P.py, or an include that its
+        # importer passes), then a negated triple whose subject is a taxon of P is excluded: P must be judged on its spans
+        # whether selected or not, otherwise its importers are excluded (or kept) wrongly (seeds C05-d, C05-l, C06-l)
+        n = 300 if ctx.tier == "quick" else 20000
+        for i in range(n):
+            db = filt.gen_db(rng, min_programs=3, import_p=1.0, edge_p=0.6)
+            edges = [(q, p) for q, ps in db["importations"].items() for p in ps if db["programs"][p]["taxa"]]
+            if not edges:
+                continue
+            q, p = rng.choice(edges)
+            ptaxa = list(db["programs"][p]["taxa"])
+            t1 = rng.choice(ptaxa)
+            t2 = rng.choice(ptaxa) if rng.random() < 0.7 else filt.gen_taxon_pattern(rng, db)
+            qonly = [t for t in db["programs"][q]["taxa"] if t not in db["programs"][p]["taxa"]]
+            pre = {"operation": "impart", "data": [p]} if not qonly or rng.random() < 0.5 else {"operation": "include", "data": [rng.choice(qonly)]}
+            cmds = [pre, {"operation": rng.choice(["exclude", "exclude", "exclude all"]), "data": [[t1, filt.gen_predicate(rng, True, False), t2]]}]
+            eq, impl, model = filt.compare(db, cmds, drv)
+            ctx.count("an imported program deselected alone, then a negated triple on its taxa is excluded",
+                      repr((sorted(db["programs"]), db["importations"], cmds, impl.get("final"))), nontrivial=filt.nontrivial(impl, db))
+            if not eq:
+                n_dis += 1
+                if n_dis <= 3:
+                    filt.report_disagreement(ctx, "negated triple after an imported program was deselected: run_pipeline differs from the specification", db, cmds, drv)
         # one couple of patterns under SEVERAL relations on one filter (seeded change C05-k: the operands of a triple
         # memoised per pattern couple, and the memoised set of programs emptied in place by the negated triple): every
         # triple must be evaluated as on a fresh filter, whatever triples on the same patterns came before it, in the
